@@ -655,32 +655,42 @@ class Body:
         return seen
 
     # ---- P5 guard regions -------------------------------------------------
-    def region_of(self, def_site, unwind=True):
-        """Program points at which the value produced by call `def_site`
-        (bare destination local g) is still held in g: set of (bb, idx) with
-        idx in 0..len(stmts) (terminator = len(stmts)).  The region ends at a
-        Drop(g) terminator (the terminator itself is inside) or at a move out
-        of g (the moving statement/terminator is outside: the value now lives
-        elsewhere)."""
-        g = def_site.dest['l']
+    def region_of(self, def_site, unwind=True, ends=None):
+        """Program points at which the value produced by call `def_site` is
+        still held: set of (bb, idx), idx in 0..len(stmts) (terminator =
+        len(stmts)).  The value is followed through whole-value moves
+        (`_x = move _g`).  The region ends at a Drop terminator of the holder
+        or at `mem::drop(move holder)` (both inside), or at any other move out
+        of the holder (outside: the value now lives elsewhere).  If `ends` is a
+        list, ('drop'|'move'|'dead'|'exit', bb) events are appended to it."""
         inside = set()
         if def_site.target is None:
             return inside
-        dq = deque([(def_site.target, 0)])
+        dq = deque([(def_site.target, 0, def_site.dest['l'])])
         seen = set()
+
+        def ev(kind, bb):
+            if ends is not None:
+                ends.append((kind, bb))
         while dq:
-            bb, start = dq.popleft()
-            if (bb, start) in seen:
+            bb, start, g = dq.popleft()
+            if (bb, start, g) in seen:
                 continue
-            seen.add((bb, start))
+            seen.add((bb, start, g))
             blk = self.blocks[bb]
             ended = False
             for j in range(start, len(blk['stmts'])):
                 s = blk['stmts'][j]
                 if s['k'] == 'assign' and _moves_local(s['rv'], g):
+                    if s['rv']['k'] == 'use' and not s['place']['p']:
+                        inside.add((bb, j))
+                        g = s['place']['l']          # the value moved to another local: keep following it
+                        continue
+                    ev('move', bb)
                     ended = True
                     break
                 if s['k'] == 'dead' and s['l'] == g:
+                    ev('dead', bb)
                     ended = True
                     break
                 inside.add((bb, j))
@@ -690,15 +700,24 @@ class Body:
             n = len(blk['stmts'])
             if t['k'] == 'drop' and t['place']['l'] == g and not t['place']['p']:
                 inside.add((bb, n))
+                ev('drop', bb)
                 continue
             if t['k'] in ('call', 'tailcall') and any(
                     a['k'] == 'move' and a['place']['l'] == g and not a['place']['p'] for a in t['args']):
+                fn = t['func'].get('fn') if t['func']['k'] == 'const' else None
+                if fn and fn['def'] == 'std::mem::drop':
+                    inside.add((bb, n))
+                    ev('drop', bb)
+                else:
+                    ev('move', bb)
                 continue
             inside.add((bb, n))
+            if t['k'] in ('return', 'resume'):
+                ev('exit', bb)
             if t['k'] == 'call' and t['dest']['l'] == g and not t['dest']['p']:
                 # overwritten by a new value: normal edge leaves the region of the old one
                 if unwind and isinstance(t.get('unwind'), int):
-                    dq.append((t['unwind'], 0))
+                    dq.append((t['unwind'], 0, g))
                 continue
             succs = self.succ(bb, unwind)
             if t['k'] == 'switch' and 'folded' not in t:
@@ -712,7 +731,7 @@ class Body:
                     if dr:
                         succs = dr
             for d in succs:
-                dq.append((d, 0))
+                dq.append((d, 0, g))
         return inside
 
     def _is_drop_flag(self, l):
